@@ -66,4 +66,11 @@ PROPS = {
              "transaction (through the verif hook) and on the serial fallback over a plain Store, after a committed initial transaction; distinct = distinct term",
         level_text="TODO", level_note="TODO", assumptions=[],
     ),
+    "C14": dict(
+        imports="Base.Path KV.Types KV.FS KV.Handle KV.Run KV.Corr", check="C14_check", ctype="C14_case",
+        show="run (with_fault kv_init (fst c)) (fst (snd c))", n=dict(quick=1500, thorough=30000), chunk=100,
+        rule="namespace and handle histories (<=14 ops) on keyvalue.FS over a plain Store (serial fallback) and over a TransactionStore; for every history the failure-free run and one run per "
+             "store-call index with exactly that call (Get, Set, lazy Data(), lazy ReadDirNames()) failing; distinct = distinct (fault index, history) term",
+        level_text="TODO", level_note="TODO", assumptions=[],
+    ),
 }
